@@ -72,6 +72,16 @@ CHECKS = {
              "with the root factor checked through fingerprints; offset-prefix refusal, as_delta parsing and canonical name / symbol are checked directly.",
         design_ref="DESIGN.md section 3, C08",
         note="pint's 'no plural of a one-letter unit part' rule is part of the operational model; double prefixes are outside the statement."),
+    "C09": dict(
+        technique="TLA+ spec (Format) model-checked with TLC for the denotation of layouts; every TLC state rendered by the real formatter and compared / read back / parsed back; bundled units in six formats read back lexically and validated by the TLC trace spec Trace_Format (names resolved with the C08 rules)",
+        text="TLC checks over 1331 containers x {D, C, P, H} x {long, ~} that the layout puts every unit once, with |exponent|, on the side of the fraction bar "
+             "its sign demands, and computes the text; each state is rendered by format(unit, spec) in float (all), Fraction and Decimal registries: "
+             "the text must match, must not raise or alter the object, and for D / C (and P with integer exponents) parse back to an equal unit; every "
+             "canonical unit and random compounds of the bundled registry are formatted in D, C, P, H, L, Lx (long and ~) and the text is read back by "
+             "per-format lexical readers into (term, exponent, side) lists which Trace_Format resolves with the C08 rules and compares with the unit; "
+             "quantity specs are checked against Python's own number formatting, str(q) round trips and the # modifier.",
+        design_ref="DESIGN.md section 3, C09",
+        note="babel / locale output is outside the statement; LaTeX / siunitx are read back only for names and symbols made of letters."),
     "C11": dict(
         technique="TLA+ spec (PintRegistry instance MC_C11) model-checked with TLC for shortest-chain / precedence / parameter laws; every TLC stack realised through nine activation forms on real registries with set-valued comparison; bundled-context conversions validated by the TLC trace spec Trace_Ctx in fingerprint arithmetic",
         text="TLC explores every stack of up to three activations over contexts with colliding edges, a direct edge competing with a two-step chain, "
